@@ -1,9 +1,9 @@
 CONSTANTS
   Variant = "code"
   Alphabet = {1,2}
-  MaxLen = 4
-  BruteLen = 4
-  FreeGaps = FALSE
+  MaxLen = 3
+  BruteLen = 3
+  FreeGaps = TRUE
 INIT Init
 NEXT Next
 INVARIANTS GotohIsBrute ZeroOpenOptimal LevIsEdit SwapSymmetric NeverAbove
